@@ -55,8 +55,9 @@ THOROUGH = [
     ("single-d3", dict(depths="{3}", rows=6, total=5, garbage=1, validity="any", zero="FALSE", mode="single"), None),
     ("pair-allvalid", dict(depths="{2,3}", rows=2, total=9, garbage=0, validity="none", zero="FALSE", mode="pair"), None),
     ("pair-small", dict(depths="{1,2}", rows=1, total=6, garbage=0, validity="any", zero="FALSE", mode="pair"), None),
-    ("pair-sim", dict(depths="{1,2,3}", rows=4, total=14, garbage=1, validity="any", zero="TRUE", mode="pair"), "num=20000"),
-    ("single-sim", dict(depths="{1,2,3}", rows=6, total=16, garbage=1, validity="any", zero="TRUE", mode="single"), "num=10000"),
+    # (the simulator computes all successors of a Fill state before it picks one: keep the slot budget moderate)
+    ("pair-sim", dict(depths="{1,2,3}", rows=3, total=12, garbage=1, validity="any", zero="FALSE", mode="pair"), "num=5000"),
+    ("single-sim", dict(depths="{1,2,3}", rows=5, total=10, garbage=1, validity="any", zero="TRUE", mode="single"), "num=4000"),
 ]
 
 
